@@ -32,7 +32,9 @@ ALPHABET = set("0123456789:TZW/P+-., YMDHS")
 SEEDS = ["2016-10-06T12:34:56.123456+05:30", "20161006T123456", "2016-10-06", "2012-W05-5", "2012W055", "2012-007", "2012007", "12:34:56.5", "T1234",
          "2016-10-06 12:34:56", "P1Y2M3DT4H5M6.5S", "P3W", "PT1.5H", "2007-03-01T13:00:00Z/2008-05-11T15:30:00Z", "2008-05-11T15:30:00Z/P1Y2M10DT2H30M",
          "P1Y2M10DT2H30M/2008-05-11T15:30:00Z", "2016-10", "20161001T14", "2016-10-06T12:34:56Z", "2016-10-06T12:34:56,5-0330", "2016-280T12", "2016-10-06/2016-10-09",
-         "T12:34:56+02:00", "1583-01-01", "9999-12-31T23:59:59.999999", "2016-10-06 12:34:56.789", "12:34", "2016-10-06 12:34", "2008-05-11T15:30:00Z/PT0S", "P0D/2008-05-11T15:30:00Z", "PT0S"]
+         "T12:34:56+02:00", "1583-01-01", "9999-12-31T23:59:59.999999", "2016-10-06 12:34:56.789", "12:34", "2016-10-06 12:34", "2008-05-11T15:30:00Z/PT0S", "P0D/2008-05-11T15:30:00Z", "PT0S",
+         # boundary spellings that ISO 8601 itself allows (end-of-day 24:00, leap second): near-valid neighbours of supported forms
+         "2016-10-06T24:00:00", "20161006T240000", "2016-10-06T24:00", "2016-12-31T23:59:60Z", "2016-02-29", "2016-366", "2015-W53-7"]
 SRC = os.path.realpath(os.path.join(env.REPO, "src", "pendulum"))
 DUR_RE = re.compile(r"^P[0-9YMWDTHS.,]+\Z")
 
